@@ -54,6 +54,10 @@ var runners = map[string]runner{}
 
 func register(prop, rule string, f func(*Ctx)) { runners[prop] = runner{rule, f} }
 
+// verifRoot and repoRoot are where the framework and the repository under test live; they differ from
+// the defaults only when a seeded change is evaluated on scratch copies of both.
+var verifRoot, repoRoot = "/verif", "/repo"
+
 func main() {
 	prop := flag.String("prop", "", "property id")
 	tier := flag.String("tier", "quick", "quick|thorough")
@@ -64,7 +68,9 @@ func main() {
 	work := flag.String("work", "", "scratch dir")
 	repo := flag.String("repo", "/repo", "repository root")
 	list := flag.Bool("list", false, "list properties")
+	flag.StringVar(&verifRoot, "verif", "/verif", "root of the verification framework (corpus, flags, harness module)")
 	flag.Parse()
+	repoRoot = *repo
 	if *list {
 		ks := []string{}
 		for k := range runners {
@@ -85,7 +91,7 @@ func main() {
 		// generated files are written below the scratch directory; x/tools/imports (run by the generator)
 		// resolves package names through the enclosing module, as it would in a user's project
 		os.MkdirAll(*work, 0o755)
-		gomod := "module scratch\n\ngo 1.23\n\nrequire (\n\tgithub.com/Khan/genqlient v0.0.0\n\tverifharness v0.0.0\n)\n\nreplace github.com/Khan/genqlient => " + *repo + "\n\nreplace verifharness => /verif/harness\n"
+		gomod := "module scratch\n\ngo 1.23\n\nrequire (\n\tgithub.com/Khan/genqlient v0.0.0\n\tverifharness v0.0.0\n)\n\nreplace github.com/Khan/genqlient => " + *repo + "\n\nreplace verifharness => " + verifRoot + "/harness\n"
 		os.WriteFile(*work+"/go.mod", []byte(gomod), 0o644)
 		if sum, err := os.ReadFile(*repo + "/go.sum"); err == nil {
 			os.WriteFile(*work+"/go.sum", sum, 0o644)
